@@ -137,6 +137,10 @@ func (g *Gen) Noise(u string) []*ref.AEvent {
 		return []*ref.AEvent{{Kind: ref.AAnonGTID, TS: ts, Body: ref.BodyGTID(1, [16]byte{}, 0, true)}}
 	case UPrevGTIDs:
 		return []*ref.AEvent{{Kind: ref.APrevGTIDs, TS: ts, Body: ref.BodyPreviousGTIDs([]ref.SIDEntry{{SID: sid, Intervals: []ref.SIDInterval{{Start: 1, End: int64(100 + g.n)}}}})}}
+	case "rowsQ":
+		// the statement text a master with binlog_rows_query_log_events=ON writes
+		// in front of the table maps of a statement
+		return []*ref.AEvent{{Kind: ref.ARowsQuery, TS: ts, Body: ref.BodyRowsQuery("INSERT INTO item VALUES (1,'x',1) /* rows query */")}}
 	case UHeartbeat:
 		return []*ref.AEvent{{Kind: ref.AHeartbeat, TS: 0, Body: []byte("mysql-bin.000001")}}
 	case UUnknownEv:
@@ -312,6 +316,13 @@ func Cfgs() []ref.Cfg {
 					if v2 {
 						c.ExtraData = []byte{}
 					}
+					if v2 && id6 && gt && ck == ref.ChecksumCRC32 {
+						// as a MySQL 8.0 master writes: partition info in the extra data of
+						// every rows event, optional metadata behind every table map
+						c.ServerVer = "8.0.36"
+						c.ExtraData = []byte{0x00, 0x01, 0x03, 0x00}
+						c.TableMapTrailer = []byte{0x01, 0x01, 0x00, 0x02, 0x01, 0x2d}
+					}
 					out = append(out, c)
 				}
 			}
@@ -340,6 +351,9 @@ func CfgName(c ref.Cfg) string {
 	}
 	if c.GTID {
 		b.WriteString("/gtid")
+	}
+	if len(c.ExtraData) > 0 || len(c.TableMapTrailer) > 0 {
+		b.WriteString("/8.0-extras")
 	}
 	return b.String()
 }
